@@ -1,17 +1,24 @@
 //! C40: revisitable_group_by.  `revgroup <modulus> <x1> <x2> ...`
-//! Output: `k:len:[items];k:len:[items];...` (empty string for no groups → `-`).
+//! Output: `k:len:[items];k:len:[items];...` (empty string for no groups → `-`). `len` is the group's public `len` field
+//! read three times — before the group is iterated, after one item was pulled, after it was exhausted — and printed as
+//! one number when the three agree, `a/b/c` otherwise.
 use crate::proto::*;
 
 pub fn run(args: &[&str]) -> String {
     let m = num(args[0]);
     let items: Vec<u64> = args[1..].iter().map(|s| num(s)).collect();
-    let groups = mmtk::verif::rev_group(&items, m);
+    let groups = mmtk::verif::rev_group_lens(&items, m);
     if groups.is_empty() {
         return "-".to_string();
     }
     groups
         .iter()
-        .map(|(k, len, xs)| {
+        .map(|(k, lens, xs)| {
+            let len = if lens[0] == lens[1] && lens[1] == lens[2] {
+                lens[0].to_string()
+            } else {
+                format!("{}/{}/{}", lens[0], lens[1], lens[2])
+            };
             format!(
                 "{}:{}:[{}]",
                 k,
